@@ -166,7 +166,7 @@ fn part_b_case(check: &Check, rng: &mut Rng) {
 
 /// Half (B): outgoing records.
 pub fn part_b_outgoing(check: &Check, args: &Args) {
-    let n = args.extra.get("budget").map(|b| if b == "tiny" { 50 } else { 2_000 }).unwrap_or(args.tier.pick(40_000, 2_000_000));
+    let n = args.extra.get("budget").map(|b| if b == "tiny" { 50 } else { 2_000 }).unwrap_or(args.tier.pick(40_000, 5_000_000));
     vmon::par_cases(check, n, args.threads, |_i, rng| part_b_case(check, rng));
     check.note("part_b_outgoing", json!("ran"));
 }
